@@ -18,7 +18,7 @@ import torch
 
 from .qbits import AWQBitsTensor
 from .qbytes import QBytesTensor
-from .qtensor import qfallback
+from .qtensor import QTensor, qfallback
 
 
 __all__ = ["get_qtensor_func", "register_qtensor_func"]
@@ -130,7 +130,12 @@ class QTensorLinear(torch.autograd.Function):
                 output = output + bias
             return output.to(dtype)
         else:
-            output = torch.matmul(input, other.t())
+            # (the float linear adds the bias before the outputs are rounded to float16, unlike a matmul followed by an addition)
+            if isinstance(input, QTensor):
+                input = input.dequantize()
+            if isinstance(other, QTensor):
+                other = other.dequantize()
+            return torch.nn.functional.linear(input, other, bias)
         if bias is not None:
             output = output + bias
         return output
